@@ -236,7 +236,7 @@ func init() {
 		a := &acc{}
 		partRaceStorms(c, a)
 		partRealBinaryStorms(c, a)
-		partLockOrder(c, a, []string{"leave", "join", "switch", "delete", "lastleave", "create"})
+		partLockOrder(c, a, []string{"leave", "join", "switch", "delete", "lastleave", "create", "join-vs-lastleave"})
 		return a.finish(c)
 	}
 }
